@@ -9,8 +9,9 @@
 (* Dev = {} is the intended design: TLC shows Complete for every tree/labeling/split.      *)
 EXTENDS Naturals, Sequences, FiniteSets, TLC
 CONSTANTS MaxN,      \* link trees with 1..MaxN visits (enumerating Init)
-          Dev,       \* subset of {"PathLen", "SkipCount"}
-          MaxScript  \* adversarial responder: scripts of up to MaxScript items
+          Dev,       \* subset of {"PathLen", "SkipCount", "StaleQueueOnResume", "InFlightOldIncarnation"}
+          MaxScript, \* adversarial responder: scripts of up to MaxScript items
+          MaxPause   \* the requestor pauses and resumes the request up to MaxPause times (C06)
 
 None == [c |-> 0, followed |-> FALSE, blk |-> FALSE]
 NoRecent == [v |-> 0, ok |-> FALSE, usedRemote |-> FALSE]
@@ -34,11 +35,13 @@ VARIABLES N, par, dep, cid, Sl0, Sr, userSkip,       \* the case (never changes)
   wire,      \* responder items in flight
   wireAll,   \* ghost: everything the responder put on the wire (C03, C24)
   respLive, errs, delivered, fatal, phase,
-  devUsed    \* ghost: deviations whose code path differed from the design in this behaviour
+  devUsed,   \* ghost: deviations whose code path differed from the design in this behaviour
+  paused,    \* the requestor has paused the request: its executor is not running
+  npause     \* pauses so far
 
 caseVars == <<N, par, dep, cid, Sl0, Sr, userSkip, ignore, keyed, adv, script>>
 vars == <<N, par, dep, cid, Sl0, Sr, userSkip, ignore, keyed, adv, script, st, store, rec, recent, rq, lastc, online, ver, unf, reqSent, reqSkip,
-          wire, wireAll, respLive, errs, delivered, fatal, phase, devUsed>>
+          wire, wireAll, respLive, errs, delivered, fatal, phase, devUsed, paused, npause>>
 V == 1..N
 
 RECURSIVE Anc(_, _, _)
@@ -124,7 +127,7 @@ RunInit ==
   /\ st = [i \in V |-> "todo"] /\ store = Sl0 /\ rec = <<>> /\ recent = NoRecent
   /\ rq = <<>> /\ lastc = None /\ online = FALSE /\ ver = 0 /\ unf = 0 /\ reqSent = FALSE /\ reqSkip = 0
   /\ wire = <<>> /\ wireAll = <<>> /\ respLive = FALSE /\ errs = {} /\ delivered = <<>> /\ fatal = "none"
-  /\ phase = "run" /\ devUsed = {}
+  /\ phase = "run" /\ devUsed = {} /\ paused = FALSE /\ npause = 0
 
 EnumInit ==
   /\ N \in 1..MaxN
@@ -161,7 +164,7 @@ Fatal(msg) == /\ fatal' = msg /\ phase' = "done"
 
 \* waitRemote: replay of the traversal record against new remote metadata
 VerifyStep ==
-  /\ phase = "run" /\ NextVisit # 0 /\ rq # <<>> /\ ~VerDone
+  /\ phase = "run" /\ ~paused /\ NextVisit # 0 /\ rq # <<>> /\ ~VerDone
   /\ LET head == rq[1] nx == rec[ver] IN
      /\ rq' = Tail(rq) /\ lastc' = [head EXCEPT !.blk = FALSE]
      /\ IF cid[nx.v] # head.c THEN Fatal("verify-mismatch") /\ UNCHANGED <<ver, unf>>
@@ -169,7 +172,7 @@ VerifyStep ==
         ELSE /\ ver' = NextPtr(ver, head.followed)
              /\ unf' = IF ~head.followed THEN nx.v ELSE unf
              /\ UNCHANGED <<fatal, phase>>
-  /\ UNCHANGED <<caseVars, st, store, rec, recent, online, reqSent, reqSkip, wire, wireAll, respLive, errs, delivered, devUsed>>
+  /\ UNCHANGED <<caseVars, st, store, rec, recent, online, reqSent, reqSkip, wire, wireAll, respLive, errs, delivered, devUsed, paused, npause>>
 
 \* pathtracker.stillOnUnfollowedRemotePath: <<answer, tracker after, deviated?>>
 StillOn(i) ==
@@ -180,7 +183,7 @@ StillOn(i) ==
 
 \* one iteration of executor.traverse: BlockReadOpener, first-miss handling, advance
 LoadStep ==
-  /\ phase = "run" /\ NextVisit # 0
+  /\ phase = "run" /\ ~paused /\ NextVisit # 0
   /\ (rq # <<>> /\ VerDone) \/ (rq = <<>> /\ ~online)
   /\ LET i == NextVisit
          rec1 == IF recent.v # 0 THEN Append(rec, [v |-> recent.v, ok |-> recent.ok]) ELSE rec
@@ -205,19 +208,34 @@ LoadStep ==
         /\ reqSent' = TRUE /\ online' = TRUE
         /\ rec' = rec1
         /\ ver' = IF Len(rec1) > 0 THEN 1 ELSE 0
-        /\ LET loaded == NBlocks
+        /\ \E nOld \in (IF "InFlightOldIncarnation" \in Dev /\ npause > 0 THEN 0..Len(wireAll) ELSE {0}),
+              lost \in (IF "InFlightOldIncarnation" \in Dev /\ npause > 0 THEN BOOLEAN ELSE {FALSE}) :
+           LET oldSent == { wireAll[j].c : j \in { jj \in 1..nOld : wireAll[jj].blk } }
+               loaded == NBlocks
                sk == IF userSkip > loaded THEN userSkip ELSE loaded
-               items == IF adv THEN script ELSE RespItems(IF "SkipCount" \in Dev THEN sk ELSE userSkip)
+               items0 == IF adv THEN script ELSE RespItems(IF "SkipCount" \in Dev THEN sk ELSE userSkip)
+               \* a request sent right after the cancel of its previous incarnation can reach the responder while that incarnation is
+               \* still being torn down (same request id): blocks it had already sent to this peer are then not sent again
+               items == [k \in 1..Len(items0) |-> [items0[k] EXCEPT !.blk = @ /\ items0[k].c \notin oldSent]]
+               \* what is still in flight from an incarnation the requestor cancelled (pause) cannot be told from the new response
+               \* by the code; the design discards it
+               oldWire == IF "InFlightOldIncarnation" \in Dev THEN wire ELSE <<>>
+               rqAfter == IF takeHead THEN Tail(rq) ELSE rq
+               lcAfter == IF takeHead THEN [head EXCEPT !.blk = FALSE] ELSE lastc
+               \* RetryLastLoad puts the last consumed item back; after a pause that item and the rest of the queue belong to the
+               \* cancelled incarnation: the code keeps them, the design starts the new incarnation with an empty queue
+               rqCode == IF useRemote /\ lcAfter # None THEN <<lcAfter>> \o rqAfter ELSE rqAfter
            IN /\ reqSkip' = sk
-              /\ wire' = items /\ wireAll' = items /\ respLive' = TRUE
-              /\ devUsed' = IF "SkipCount" \in Dev /\ items # RespItems(userSkip)
+              \* ... or the responder drops the new request together with the old one and never answers (lost)
+              /\ wire' = (IF lost THEN oldWire ELSE oldWire \o items) /\ wireAll' = items /\ respLive' = ~lost
+              /\ rq' = IF "StaleQueueOnResume" \in Dev THEN rqCode ELSE <<>>
+              /\ lastc' = IF "StaleQueueOnResume" \in Dev THEN lcAfter ELSE None
+              /\ devUsed' = (IF "SkipCount" \in Dev /\ items # RespItems(userSkip)
                                  /\ \E k \in 1..Len(items) : items[k].blk # RespItems(userSkip)[k].blk /\ items[k].c \notin store
-                            THEN dev1 \cup {"SkipCount"} ELSE dev1
+                             THEN dev1 \cup {"SkipCount"} ELSE dev1)
+                            \cup (IF "StaleQueueOnResume" \in Dev /\ rqCode # <<>> THEN {"StaleQueueOnResume"} ELSE {})
+                            \cup (IF "InFlightOldIncarnation" \in Dev /\ (wire # <<>> \/ lost \/ items # items0) THEN {"InFlightOldIncarnation"} ELSE {})
         /\ recent' = NoRecent
-        /\ LET rqAfter == IF takeHead THEN Tail(rq) ELSE rq
-               lcAfter == IF takeHead THEN [head EXCEPT !.blk = FALSE] ELSE lastc IN
-           /\ rq' = IF useRemote /\ lcAfter # None THEN <<lcAfter>> \o rqAfter ELSE rqAfter
-           /\ lastc' = lcAfter
         /\ unf' = unf1
         /\ UNCHANGED <<st, store, errs, delivered, fatal, phase>>
      ELSE
@@ -232,7 +250,7 @@ LoadStep ==
         /\ delivered' = IF ok THEN Append(delivered, i) ELSE delivered
         /\ ver' = ver1 /\ devUsed' = dev1
         /\ UNCHANGED <<online, reqSent, reqSkip, wire, wireAll, respLive, fatal, phase>>
-  /\ UNCHANGED caseVars
+  /\ UNCHANGED <<caseVars, paused, npause>>
 
 \* network: the responder's items arrive in any chunking (dropped when the loader is offline)
 Ingest ==
@@ -240,20 +258,40 @@ Ingest ==
   /\ \E k \in 1..Len(wire) :
        /\ wire' = SubSeq(wire, k+1, Len(wire))
        /\ rq' = IF online THEN rq \o SubSeq(wire, 1, k) ELSE rq
-  /\ UNCHANGED <<caseVars, st, store, rec, recent, lastc, online, ver, unf, reqSent, reqSkip, wireAll, respLive, errs, delivered, fatal, phase, devUsed>>
+  /\ UNCHANGED <<caseVars, st, store, rec, recent, lastc, online, ver, unf, reqSent, reqSkip, wireAll, respLive, errs, delivered, fatal, phase, devUsed, paused, npause>>
 
 \* terminal status processed: loader offline
 Terminal ==
   /\ respLive /\ wire = <<>>
   /\ respLive' = FALSE /\ online' = FALSE
-  /\ UNCHANGED <<caseVars, st, store, rec, recent, rq, lastc, ver, unf, reqSent, reqSkip, wire, wireAll, errs, delivered, fatal, phase, devUsed>>
+  /\ UNCHANGED <<caseVars, st, store, rec, recent, rq, lastc, ver, unf, reqSent, reqSkip, wire, wireAll, errs, delivered, fatal, phase, devUsed, paused, npause>>
 
 Finish ==
-  /\ phase = "run" /\ NextVisit = 0
+  /\ phase = "run" /\ ~paused /\ NextVisit = 0
   /\ phase' = "done"
-  /\ UNCHANGED <<caseVars, st, store, rec, recent, rq, lastc, online, ver, unf, reqSent, reqSkip, wire, wireAll, respLive, errs, delivered, fatal, devUsed>>
+  /\ UNCHANGED <<caseVars, st, store, rec, recent, rq, lastc, online, ver, unf, reqSent, reqSkip, wire, wireAll, respLive, errs, delivered, fatal, devUsed, paused, npause>>
 
-Next == VerifyStep \/ LoadStep \/ Ingest \/ Terminal \/ Finish
+\* C06, requestor side.  A pause (API or incoming-block hook) takes effect when the executor has processed the result of a load
+\* (executor.processResult): the executor sends a cancel and takes the loader offline; the traverser, the traversal record, the
+\* remote queue and the path tracker are kept.  The responder stops somewhere: what it had not produced yet never appears.
+Pause ==
+  /\ phase = "run" /\ ~paused /\ npause < MaxPause /\ recent.v # 0 /\ NextVisit # 0
+  /\ paused' = TRUE /\ npause' = npause + 1 /\ online' = FALSE /\ respLive' = FALSE
+  /\ \E k \in 0..Len(wire) : wire' = SubSeq(wire, 1, k)
+  /\ UNCHANGED <<caseVars, st, store, rec, recent, rq, lastc, ver, unf, reqSent, reqSkip, wireAll, errs, delivered, fatal, phase, devUsed>>
+\* unpause: the task is queued again and a new run of the executor continues the same traversal; its first miss sends a new
+\* request that asks the responder to leave out the blocks traversed so far
+Resume ==
+  /\ paused /\ paused' = FALSE /\ reqSent' = FALSE
+  /\ UNCHANGED <<caseVars, st, store, rec, recent, rq, lastc, online, ver, unf, reqSkip, wire, wireAll, respLive, errs, delivered, fatal, phase, devUsed, npause>>
+
+\* the requestor waits for a response that will never come (only reachable under InFlightOldIncarnation)
+Hang ==
+  /\ phase = "run" /\ ~paused /\ NextVisit # 0 /\ online /\ ~respLive /\ wire = <<>> /\ rq = <<>>
+  /\ Fatal("hang")
+  /\ UNCHANGED <<caseVars, st, store, rec, recent, rq, lastc, online, ver, unf, reqSent, reqSkip, wire, wireAll, respLive, errs, delivered, devUsed, paused, npause>>
+
+Next == VerifyStep \/ LoadStep \/ Ingest \/ Terminal \/ Finish \/ Pause \/ Resume \/ Hang
 Spec == EnumInit /\ [][Next]_vars
 
 -----------------------------------------------------------------------------
@@ -278,5 +316,5 @@ Sound == /\ store \subseteq Sl0 \cup { cid[i] : i \in V }
          /\ \A k \in 1..Len(delivered) : Visited(delivered[k]) /\ (cid[delivered[k]] \in store)
          /\ \A k \in 1..(Len(delivered) - 1) : delivered[k] < delivered[k+1]
 \* a running request can always make a step (no hang)
-NoHang == (phase = "run" /\ NextVisit # 0) => ENABLED (VerifyStep \/ LoadStep \/ Ingest \/ Terminal)
+NoHang == (phase = "run" /\ ~paused /\ NextVisit # 0) => ENABLED (VerifyStep \/ LoadStep \/ Ingest \/ Terminal)
 =============================================================================
